@@ -8,6 +8,8 @@ func init() {
 		Exhaustive:  true,
 		Fixtures:    []string{"s"},
 		SelfTest: []Mutation{
+			{Name: "downsampled image addressed with its height as the row length", File: "render3d/image.go",
+				Old: "out.Data[i1*out.Width+j]", New: "out.Data[i1*out.Height+j]", Rule: "ROWMAJOR", Expect: "Downsample"},
 			{Name: "single-corner case wound the other way", File: "model3d/mc.go",
 				Old: "\tnewMcIntersections(0): {\n\t\t{0, 1, 0, 2, 0, 4},\n\t},", New: "\tnewMcIntersections(0): {\n\t\t{0, 2, 0, 1, 0, 4},\n\t},", Rule: "A1.ORIENT", Expect: "case 00000001"},
 			{Name: "one triangle of the two-corner case removed", File: "model3d/mc.go",
@@ -56,6 +58,8 @@ func init() {
 			c.floor("MODFRAC", 0)
 			c.runCanonFirstFiles("CANON", c.libPkgs()[:1], baseIn("mesh.go"))
 			c.floor("CANON", 0)
+			c.runRowMajor("ROWMAJOR", append(c.libPkgs(), c.fixturePkg("s")), nil)
+			c.floor("ROWMAJOR", 0)
 		},
 	})
 }
